@@ -25,4 +25,8 @@ except Exception as ex:
     print("could not merge evidence:", ex)
 PY
 if [ $rc -ne 0 ]; then echo "$out" | grep '^VIOLATION'; fi
+if [ $rc -ne 0 ] && [ $rc -ne 1 ] && [ $rc -ne 2 ]; then
+  echo "INCONCLUSIVE: property=$id the run under the second build profile died with status $rc"
+  exit 2
+fi
 exit $rc
